@@ -55,6 +55,8 @@ DOCS = [
     "[^1]: footnote definition starts, 1\\. x\n\ntext[^1]\n\n| t |\n|---|\n| 12 |\n",   # 17 footnote first, table with digits last
     "~~~~python title\ncode\n~~~~\n\n* * *\n",                                # 18 tilde fence with info, ends with a rule
     "<div>\nhtml block\n</div>\n\n[a]: http://three\n",                       # 19 html block first, ends with a definition
+    "[text](http://one \"t\") is an inline link to the target that document 6 defines as [a]\n",    # 20 same (dest, title), no definition here
+    "[x](http://two) inline, and ![img](http://one \"t\")\n\n[b]: http://one \"t\"\n\nuse [b]\n",   # 21 same targets under another label
 ]
 OPTS = [dict(width=88, semantic=False, cleanups=False), dict(width=20, semantic=True, cleanups=True, smartquotes=True, ellipses=True),
         dict(width=10, semantic=False, cleanups=False, list_spacing="loose"), dict(width=40, plaintext=True)]
@@ -306,6 +308,10 @@ def spaces(tier):
 
 
 def extra(reports, tier):
-    sp = [r.space for r in reports if r.space.name == "schedules"][0]
-    return {"scheduling_points": {f"pair{pi}-thread{w}-{g}": n for (pi, w, g), n in sorted(sp.npoints.items())},
-            "history_actions": len(ACTIONS), "history_depth": [r.space for r in reports if r.space.name == "histories"][0].depth}
+    out = {"history_actions": len(ACTIONS)}
+    for r in reports:
+        if r.space.name == "schedules":
+            out["scheduling_points"] = {f"pair{pi}-thread{w}-{g}": n for (pi, w, g), n in sorted(r.space.npoints.items())}
+        if r.space.name == "histories":
+            out["history_depth"] = r.space.depth
+    return out
